@@ -189,10 +189,18 @@ class SeqGen:
     def walk(self, op, arg, sz):
         """First page only: the token of a later page is not known to the generator; full walks
         are produced by the orchestrator's two-pass `walk` cases."""
-        if self.rng.chance(1, 2):
+        c = self.rng.below(8)
+        if c < 4:
             self.emit("w%s %s %d" % (op[1:], arg, sz))      # the whole walk
-        else:
+        elif c < 7:
             self.emit("%s %s %d -" % (op, arg, sz))
+        else:
+            # a well-formed token (base64 of 8 little-endian bytes) naming any offset: stale, at the
+            # end, past the end, huge
+            import base64
+            off = self.rng.choice([0, 1, 2, 3, 4, 5, 7, 50, 2 ** 31, 2 ** 63, 2 ** 64 - 1])
+            tok = base64.b64encode(off.to_bytes(8, "little"))
+            self.emit("%s %s %d %s" % (op, arg, sz, hx(tok)))
 
     def op_pub(self):
         r = self.rng
